@@ -84,6 +84,7 @@ theorem calcSighash_keypath (h : HashCtx) (tc : TapCtx) (cr : SigCrypto) (tx txi
   unfold calcSighash
   rw [configure_keypath h tc tx txin inp vout spent key sig _ hv hss hw hs hspk hk]
   simp only [getD_of_getElem? _ _ _ hs]
+  rw [if_neg (by simp [hv])]
   obtain ⟨d, hd, r1, r2, hso, hcoh⟩ := Btcdeb.Proofs.Sighash.precomputeInit_single_input_ready cr tx inp spent true hv (Or.inl rfl)
   unfold calcSighashTxData
   rw [hd]
@@ -112,6 +113,7 @@ theorem calcSighash_scriptpath (h : HashCtx) (tc : TapCtx) (cr : SigCrypto) (tx 
   unfold calcSighash
   rw [hc]
   simp only [getD_of_getElem? _ _ _ hs]
+  rw [if_neg (by simp [hv])]
   have hwne : inp.witness ≠ [] := by rw [hw]; simp
   obtain ⟨d, hd, r1, r2, hso, hcoh⟩ := Btcdeb.Proofs.Sighash.precomputeInit_single_input_ready cr tx inp spent c.hasPreamble hv
     (Or.inr ⟨hwne, looksTaproot_p2tr spent key hspk hk⟩)
@@ -127,6 +129,76 @@ theorem calcSighash_scriptpath (h : HashCtx) (tc : TapCtx) (cr : SigCrypto) (tx 
   simp only [this]
   rw [hsig, if_pos (bip341Defined_default tx 0), hso]
 
+
+theorem configure_p2tr_facts (h : HashCtx) (tc : TapCtx) (tx txin : Tx) (idx vout : Nat) (sv0 : SigVersion)
+    (inp : TxIn) (spent : TxOut) (key : Bytes)
+    (hi : tx.vin[idx]? = some inp) (hss : inp.scriptSig = []) (hs : txin.vout[vout]? = some spent)
+    (hspk : spent.scriptPubKey = 0x51 :: 0x20 :: key) (hk : key.length = 32) (c : Configured)
+    (hc : configureTxTxin h tc tx txin idx vout sv0 = some c) :
+    (c.sigver = .BASE ∧ inp.witness = [] ∧ c.hasPreamble = false) ∨
+    (c.sigver = .TAPROOT ∧ c.execdata.annexInit = true) ∨
+    (c.sigver = .TAPSCRIPT ∧ c.execdata.annexInit = true ∧ c.execdata.tapleafHashInit = true) := by
+  unfold configureTxTxin at hc
+  simp only [hi, hs, hss, hspk] at hc
+  cases hw : inp.witness.getLast? with
+  | none =>
+    have hwe : inp.witness = [] := List.getLast?_eq_none_iff.mp hw
+    simp only [hw] at hc
+    split at hc
+    · cases hc
+    · cases hc; exact Or.inl ⟨rfl, hwe, rfl⟩
+  | some wlast =>
+    simp [hw, getOp_op1, getOp_push32 key hk, hk, Op.OP_0, Op.OP_1] at hc
+    iterate 12 (all_goals (try (split at hc)); all_goals (try (cases hc)))
+    all_goals (first | done | exact Or.inr (Or.inl ⟨rfl, rfl⟩) | exact Or.inr (Or.inr ⟨rfl, rfl, rfl⟩))
+
+
+theorem calcSighash_never_abnormal_p2tr (h : HashCtx) (tc : TapCtx) (cr : SigCrypto) (tx txin : Tx) (idx vout : Nat)
+    (inp : TxIn) (spent : TxOut) (key : Bytes)
+    (hi : tx.vin[idx]? = some inp) (hss : inp.scriptSig = []) (hs : txin.vout[vout]? = some spent)
+    (hspk : spent.scriptPubKey = 0x51 :: 0x20 :: key) (hk : key.length = 32) (k : String) :
+    calcSighash h tc cr tx txin idx vout ≠ .error (.step (.abnormal k)) := by
+  unfold calcSighash
+  cases hcfg : configureTxTxin h tc tx txin idx vout (if hasWitness tx then .WITNESS_V0 else .BASE) with
+  | none => simp
+  | some c =>
+    have facts := configure_p2tr_facts h tc tx txin idx vout _ inp spent key hi hss hs hspk hk c hcfg
+    simp only
+    by_cases hn : tx.vin.length ≠ 1
+    · rw [if_pos hn]; simp
+    · rw [if_neg hn]
+      have hn1 : tx.vin.length = 1 := by simpa using hn
+      obtain ⟨i0, hv⟩ : ∃ i0, tx.vin = [i0] := by
+        cases hvv : tx.vin with
+        | nil => simp [hvv] at hn1
+        | cons a l => cases l with
+          | nil => exact ⟨a, rfl⟩
+          | cons b l' => simp [hvv] at hn1
+      have hidx : idx = 0 ∧ i0 = inp := by
+        rw [hv] at hi
+        cases idx with
+        | zero => simpa using hi
+        | succ n => simp at hi
+      obtain ⟨rfl, rfl⟩ := hidx
+      rw [getD_of_getElem? _ _ _ hs]
+      obtain ⟨d, hd⟩ := (Btcdeb.Proofs.Sighash.precomputeInit_ok cr tx [spent] c.hasPreamble).mpr (Or.inr (by simp [hv]))
+      obtain ⟨_, f2, _, f4⟩ := Btcdeb.Proofs.Sighash.precomputeInit_flags cr tx [spent] c.hasPreamble d hd
+      unfold calcSighashTxData
+      rw [hd]
+      simp only
+      rcases facts with ⟨s1, s2, s3⟩ | ⟨s1, s2⟩ | ⟨s1, s2, s3⟩
+      · -- legacy: nothing is ready, `SignatureHashSchnorr` returns false
+        have hnr : d.bip341TaprootReady = false := by
+          rw [f4, s3, hv]; simp [Btcdeb.Proofs.Sighash.uses341, s2]
+        simp [s1, schnorrSighashM, hv, hnr, handleMissingData]
+      · simp only [s1]
+        unfold schnorrSighashM
+        by_cases hr : (d.bip341TaprootReady = false ∨ d.spentOutputsReady = false) <;>
+          simp [hv, s2, handleMissingData, hr, Gen.SIGHASH_DEFAULT, Gen.SIGHASH_ALL, Gen.SIGHASH_SINGLE]
+      · simp only [s1]
+        unfold schnorrSighashM
+        by_cases hr : (d.bip341TaprootReady = false ∨ d.spentOutputsReady = false) <;>
+          simp [hv, s2, s3, handleMissingData, hr, Gen.SIGHASH_DEFAULT, Gen.SIGHASH_ALL, Gen.SIGHASH_SINGLE]
 
 end Btcdeb.Proofs.TapSpend.M
 
